@@ -3,11 +3,17 @@ use crate::server::ServerParameters;
 use crate::stats::pool::PoolStats;
 use bytes::{Buf, BufMut, BytesMut};
 use log::{error, info, trace};
+#[cfg(not(pgcat_verif))]
 use nix::sys::signal::{self, Signal};
 use nix::unistd::Pid;
 use std::collections::HashMap;
 /// Admin database.
 use std::sync::atomic::Ordering;
+#[cfg(pgcat_verif)]
+use simcore::clock::{SystemTime, UNIX_EPOCH};
+#[cfg(pgcat_verif)]
+use simcore::signal::nixshim::{self as signal, Signal};
+#[cfg(not(pgcat_verif))]
 use std::time::{SystemTime, UNIX_EPOCH};
 use tokio::time::Instant;
 
